@@ -893,10 +893,24 @@ Definition children_entries (L : lschema) (e : lentry) : option (list lentry) :=
   | _ => None
   end.
 
+(* ---- the two repairs of the code (fix: commits), selectable so that the unrepaired behaviour stays
+   available as the record of the defects:
+     fx_skip_undeclared : SchemaValidator._check_tag_entry_attributes runs validators only on attributes that
+                          are declared for the section (C14-F1)
+     fx_own_library     : verify_tag_id / tag_is_deprecated_check read the entry's OWN inLibrary value, not
+                          the inherited comma-joined one (C14-F2) *)
+Record fixes : Set := mkFx { fx_skip_undeclared : bool; fx_own_library : bool }.
+Definition fixed_all : fixes := mkFx true true.
+Definition fixed_none : fixes := mkFx false false.
+
+(* tag_entry.attributes.get(inLibrary)  /  tag_entry.has_attribute(inLibrary, return_value=True) before the repair *)
+Definition library_value (fx : fixes) (e : lentry) : option aval :=
+  if fx_own_library fx then dict_get HedKey_InLibrary (le_attrs e) else attr_value e HedKey_InLibrary.
+
 (* tag_is_deprecated_check: the library whose released versions are consulted
    (library_name after the `if not library_name and not hed_schema.with_standard` adjustment) *)
-Definition entry_library (L : lschema) (e : lentry) : option aval :=
-  match attr_value e HedKey_InLibrary with
+Definition entry_library (fx : fixes) (L : lschema) (e : lentry) : option aval :=
+  match library_value fx e with
   | Some v => Some v
   | None => match l_with_standard L with
             | [] => Some (VStr (l_library L))
@@ -913,8 +927,9 @@ Definition versions_for (E : env) (lib : option aval) : list str :=
   end.
 
 (* tag_is_deprecated_check *)
-Definition tag_is_deprecated_check (E : env) (L : lschema) (e : lentry) (a : str) : res (list kind) :=
-  let lib := entry_library L e in
+Definition tag_is_deprecated_check (fx : fixes) (E : env) (L : lschema) (e : lentry) (a : str)
+  : res (list kind) :=
+  let lib := entry_library fx L e in
   let all_versions := versions_for E lib in
   let* i1 :=
      match dict_get a (le_attrs e) with
@@ -1019,53 +1034,54 @@ Definition get_previous_version (E : env) (version lib : str) : res (option str)
                    else go r
      end) (get_hed_versions E lib).
 
+(* zip(versions, libraries) *)
+Fixpoint zip_str (a b : list str) : list (str * str) :=
+  match a, b with x :: a', y :: b' => (x, y) :: zip_str a' b' | _, _ => [] end.
+
+(* adding the id range of a library to library_data when library_data.json has one *)
+Definition add_range (E : env) (lib : str) (ld : list (str * (Z * Z))) : list (str * (Z * Z)) :=
+  match dict_get lib (env_ranges E) with Some r => dict_set lib r ld | None => ld end.
+
+(* one round of the loop over zip(versions, libraries) in HedIDValidator.__init__ *)
+Definition id_step (E : env) (acc : res (list (str * str) * list (str * (Z * Z)))) (vl : str * str)
+  : res (list (str * str) * list (str * (Z * Z))) :=
+  let* s := acc in
+  let* p := get_previous_version E (fst vl) (snd vl) in
+  Ok (match p with Some x => dict_set (snd vl) x (fst s) | None => fst s end, add_range E (snd vl) (snd s)).
+
+(* the standard schema of a partnered library ("" not in prev_versions and with_standard) *)
+Definition id_standard_step (E : env) (L : lschema) (s : list (str * str) * list (str * (Z * Z)))
+  : res (list (str * str) * list (str * (Z * Z))) :=
+  match dict_get [] (fst s), l_with_standard L with
+  | None, _ :: _ =>
+      let* p := get_previous_version E (l_with_standard L) [] in
+      Ok (match p with Some x => dict_set [] x (fst s) | None => fst s end, add_range E [] (snd s))
+  | _, _ => Ok s
+  end.
+
 (* HedIDValidator.__init__ *)
 Definition id_validator_init (E : env) (L : lschema) : res idenv :=
-  let libs := split_comma (l_library L) in
-  let vers := split_comma (l_version L) in
-  let fix zip (a b : list str) : list (str * str) :=
-      match a, b with x :: a', y :: b' => (x, y) :: zip a' b' | _, _ => [] end in
-  let* st :=
-     fold_left (fun acc vl =>
-                  let* s := acc in
-                  let '(pv, ld) := (s : list (str * str) * list (str * (Z * Z))) in
-                  let '(version, lib) := (vl : str * str) in
-                  let* p := get_previous_version E version lib in
-                  let pv' := match p with Some x => dict_set lib x pv | None => pv end in
-                  let ld' := match dict_get lib (env_ranges E) with Some r => dict_set lib r ld | None => ld end in
-                  Ok (pv', ld'))
-               (zip vers libs) (Ok ([], [])) in
-  let '(pv, ld) := st in
-  let* st2 :=
-     match dict_get [] pv, l_with_standard L with
-     | None, _ :: _ =>
-         let* p := get_previous_version E (l_with_standard L) [] in
-         let pv' := match p with Some x => dict_set [] x pv | None => pv end in
-         let ld' := match dict_get [] (env_ranges E) with Some r => dict_set [] r ld | None => ld end in
-         Ok (pv', ld')
-     | _, _ => Ok (pv, ld)
-     end in
-  let '(pv2, ld2) := st2 in
-  let* prev := mapM (fun lv => let '(lib, full) := (lv : str * str) in
-                               match dict_get full (env_loadable E) with
+  let* st := fold_left (id_step E) (zip_str (split_comma (l_version L)) (split_comma (l_library L))) (Ok ([], [])) in
+  let* st2 := id_standard_step E L st in
+  let* prev := mapM (fun lv => match dict_get (snd lv) (env_loadable E) with
                                | None => Exn HedFileError
-                               | Some rs => let* Lp := load E rs in Ok (lib, Lp)
-                               end) pv2 in
-  Ok (mkIdEnv prev ld2).
+                               | Some rs => let* Lp := load E rs in Ok (fst lv, Lp)
+                               end) (fst st2) in
+  Ok (mkIdEnv prev (snd st2)).
 
 Inductive idval : Set := IdInt (z : Z) | IdRaw.
 
 (* tag_library of verify_tag_id as a dictionary key (None: the value True matches no key) *)
-Definition tag_library_key (e : lentry) : option str :=
-  match attr_value e HedKey_InLibrary with
+Definition tag_library_key (fx : fixes) (e : lentry) : option str :=
+  match library_value fx e with
   | None => Some []
   | Some (VStr s) => Some s
   | Some VFlag => None
   end.
 
 (* HedIDValidator.verify_tag_id *)
-Definition verify_tag_id (I : idenv) (L : lschema) (e : lentry) (a : str) : res (list kind) :=
-  let tag_library := tag_library_key e in
+Definition verify_tag_id (fx : fixes) (I : idenv) (L : lschema) (e : lentry) (a : str) : res (list kind) :=
+  let tag_library := tag_library_key fx e in
   let prev := match tag_library with Some k => dict_get k (id_prev I) | None => None end in
   let old_attr := match prev with
                   | Some Lp => match lookup Lp (le_sec e) (le_name e) with
@@ -1110,19 +1126,19 @@ Definition verify_tag_id (I : idenv) (L : lschema) (e : lentry) (a : str) : res 
 
 (* ------------------------------------------------------------------ SchemaValidator *)
 
-Definition run_validator (E : env) (I : idenv) (L : lschema) (v : validator) (e : lentry) (a : str)
+Definition run_validator (fx : fixes) (E : env) (I : idenv) (L : lschema) (v : validator) (e : lentry) (a : str)
   : res (list kind) :=
   match v with
   | V_tag_is_placeholder_check => tag_is_placeholder_check L e a
   | V_item_exists_check sec => item_exists_check sec L e a
-  | V_tag_is_deprecated_check => tag_is_deprecated_check E L e a
+  | V_tag_is_deprecated_check => tag_is_deprecated_check fx E L e a
   | V_unit_exists => unit_exists L e a
   | V_conversion_factor => conversion_factor L e a
   | V_allowed_characters_check => allowed_characters_check L e a
   | V_in_library_check => in_library_check L e a
   | V_attribute_is_deprecated => attribute_is_deprecated L e a
   | V_is_numeric_value => is_numeric_value L e a
-  | V_verify_tag_id => verify_tag_id I L e a
+  | V_verify_tag_id => verify_tag_id fx I L e a
   | V_tag_exists_base_schema_check => tag_exists_base_schema_check L e a
   end.
 
@@ -1142,10 +1158,10 @@ Definition get_validators (L : lschema) (a : str) : list validator :=
   else table_get a validators_old ++ [V_attribute_is_deprecated].
 
 (* SchemaValidator._run_validators: every finding is downgraded to WARNING, then filtered *)
-Definition run_validators (E : env) (I : idenv) (warn : bool) (L : lschema) (e : lentry) (a : str)
+Definition run_validators (fx : fixes) (E : env) (I : idenv) (warn : bool) (L : lschema) (e : lentry) (a : str)
            (vs : list validator) : res (list issue) :=
   concat_mapM (fun v =>
-                 let* ks := run_validator E I L v e a in
+                 let* ks := run_validator fx E I L v e a in
                  Ok (add_context_and_filter warn (Some (le_sec e)) (Some (le_name e)) (Some a)
                                             (map (fun k => mkIssue k SevWarning None None None) ks)))
               vs.
@@ -1157,15 +1173,19 @@ Definition check_unknown_attributes (warn : bool) (e : lentry) : list issue :=
            (le_unknown e).
 
 (* SchemaValidator._check_tag_entry_attributes *)
-Definition check_tag_entry_attributes (E : env) (I : idenv) (warn : bool) (L : lschema) (e : lentry)
+Definition skip_attribute (fx : fixes) (e : lentry) (a : str) : bool :=
+  fx_skip_undeclared fx && mem_str a (le_unknown e).
+
+Definition check_tag_entry_attributes (fx : fixes) (E : env) (I : idenv) (warn : bool) (L : lschema) (e : lentry)
   : res (list issue) :=
-  let* r := concat_mapM (fun kv => run_validators E I warn L e (fst kv) (get_validators L (fst kv)))
+  let* r := concat_mapM (fun kv => if skip_attribute fx e (fst kv) then Ok []
+                                   else run_validators fx E I warn L e (fst kv) (get_validators L (fst kv)))
                         (le_attrs e) in
   Ok (check_unknown_attributes warn e ++ r).
 
 (* SchemaValidator.check_attributes *)
-Definition check_attributes (E : env) (I : idenv) (warn : bool) (L : lschema) : res (list issue) :=
-  concat_mapM (fun sec => concat_mapM (check_tag_entry_attributes E I warn L) (section_values L sec))
+Definition check_attributes (fx : fixes) (E : env) (I : idenv) (warn : bool) (L : lschema) : res (list issue) :=
+  concat_mapM (fun sec => concat_mapM (check_tag_entry_attributes fx E I warn L) (section_values L sec))
               all_sections.
 
 (* SchemaValidator.check_duplicate_names *)
@@ -1212,15 +1232,15 @@ Definition check_if_prerelease_version (E : env) (warn : bool) (L : lschema) : r
   Ok (add_context_and_filter warn None None None (i1 ++ i2)).
 
 (* check_compliance on a loaded schema (without the character checks and the final sort) *)
-Definition check_loaded (E : env) (warn : bool) (L : lschema) : res (list issue) :=
+Definition check_loaded (fx : fixes) (E : env) (warn : bool) (L : lschema) : res (list issue) :=
   let* ide := id_validator_init E L in
   let* pre := check_if_prerelease_version E warn L in
-  let* at_ := check_attributes E ide warn L in
+  let* at_ := check_attributes fx E ide warn L in
   Ok (pre ++ at_ ++ check_duplicate_names warn L).
 
 (* hed.schema.from_string(xml) followed by schema.check_compliance(check_for_warnings) *)
-Definition check_compliance (E : env) (warn : bool) (RS : rschema) : res (list issue) :=
-  let* L := load E RS in check_loaded E warn L.
+Definition check_compliance (fx : fixes) (E : env) (warn : bool) (RS : rschema) : res (list issue) :=
+  let* L := load E RS in check_loaded fx E warn L.
 
 Definition errors_of (r : res (list issue)) : res (list issue) :=
   match r with Ok l => Ok (filter is_error l) | Exn e => Exn e end.
